@@ -350,7 +350,8 @@ def _solve(e_l, e_r):
     writer = SymPyWriter()
     try:
         s_l, s_r = writer([e_l, e_r])
-    except VisitorError:
+    except (VisitorError, ZeroDivisionError):
+        # SymPy refuses a constant `mod(x, 2 - 2)` while parsing: non-claim
         return None
     tmap = writer.type_map
     ivar = None
@@ -439,6 +440,10 @@ def check_expand(tag, lidx):
     try:
         SymbolicMaths.get().expand(assign.rhs)
     except Exception as err:  # pylint: disable=broad-except
+        if all(val is _UNDEF for val in before):
+            # undefined on every valuation (`mod(3, 2 - 2)`): SymPy's
+            # 'Modulo by zero' is not a statement about any Fortran value
+            return 1, []
         return 0, [{"key": f"{tag}:expand:{text}",
                     "sig": f"expand:raises:{type(err).__name__}",
                     "msg": f"SymbolicMaths.expand({text}) raised {err!r}",
@@ -446,6 +451,10 @@ def check_expand(tag, lidx):
     try:
         after = value_vector(rout, assign.rhs)
     except I.Unsupported as err:
+        if all(val is _UNDEF for val in before):
+            # the expression is undefined on every valuation (`3 / (i - i)`):
+            # whatever expand() wrote (SymPy's `zoo`) is unobservable
+            return 1, []
         raise RuntimeError(f"cannot evaluate expanded '{text}': {err}")
     pos = _first_diff(before, after, True)
     if pos is None:
